@@ -102,7 +102,7 @@ func checkC13() *checkDef {
 }
 
 func allChecks() []*checkDef {
-	return []*checkDef{checkC01(), checkC03(), checkC04(), checkC06(), checkC07(), checkC08(), checkC09(), checkC12(), checkC13(), checkC14(), checkC15(), checkC19()}
+	return []*checkDef{checkC01(), checkC03(), checkC04(), checkC06(), checkC07(), checkC08(), checkC09(), checkC10(), checkC11(), checkC12(), checkC13(), checkC14(), checkC15(), checkC19()}
 }
 
 func freshRuns(tier string) []run {
@@ -203,6 +203,7 @@ func checkC08() *checkDef {
 			return []run{
 				{Pkg: "./proxy", Scenario: "proxy/relay", Params: map[string]any{"backend": "memory"}},
 				{Pkg: "./proxy", Scenario: "proxy/relay", Params: map[string]any{"backend": "file"}},
+				{Pkg: "./proxy", Scenario: "proxy/tunnel-relay", Params: map[string]any{}},
 			}
 		},
 	}
@@ -220,6 +221,48 @@ func checkC09() *checkDef {
 		Assumptions: seqAssumptions,
 		Runs: func(tier string) []run {
 			return []run{{Pkg: "./proxy", Scenario: "proxy/fault", Params: map[string]any{}}}
+		},
+	}
+}
+
+func checkC10() *checkDef {
+	return &checkDef{
+		ID: "C10", Title: "Each exchange on a CONNECT tunnel is isolated and equals plain proxying", Level: "model_checking",
+		LevelText: "Explicit-state exploration of exchange sequences: every sequence of length <=3 (<=4 thorough) over nine exchange shapes (cacheable 200, its HIT, chunked no-store 200, 404 with body, 204, HEAD, Range->206, POST with body, origin 500, response with distinctive headers) is sent (i) over one kept-alive tunnel through the real handleCONNECT with a real TLS handshake, (ii) over one tunnel per request and (iii) over plain HTTP, against identically scripted origins; per position the three answers must agree on status, end-to-end header multimap and body (differential oracle: (i)!=(ii) means the answer depends on an earlier exchange).",
+		LevelNote: "Trusted: in-memory connections and the real net/http + crypto/tls stacks; Date, Content-Length/Transfer-Encoding/Connection are excluded from the comparison (framing may differ, the body may not).",
+		Technique: "explicit-state enumeration of exchange sequences on the implementation with a three-way differential oracle (kept-alive tunnel / fresh tunnel / plain)",
+		DesignRef: "DESIGN.md section 4 C10",
+		Rule:        "all sequences over the shape alphabet up to the length bound; distinct by sequence; non-trivial = distinct sequence",
+		Assumptions: seqAssumptions,
+		Runs: func(tier string) []run {
+			d := 3
+			if tier == "thorough" {
+				d = 4
+			}
+			return []run{{Pkg: "./proxy", Scenario: "proxy/tunnel", Params: map[string]any{"backend": "memory", "depth": d}}}
+		},
+	}
+}
+
+func checkC11() *checkDef {
+	return &checkDef{
+		ID: "C11", Title: "Every tunnel gets a valid host-specific certificate from the configured CA", Level: "model_checking",
+		LevelText: "Input enumeration through the real handleCONNECT with a verifying TLS client on the virtual clock: 12 host shapes (DNS, upper case, sub-domain, punycode, underscore, localhost, trailing dot, IPv4 x2, IPv6 x3) x 5 ports: handshake must succeed against the CA pool for exactly that host, the leaf names exactly the host, verifies for server auth at the virtual time, and a request through the tunnel is answered. Plus histories of issuance with clock advances (239 h, 240 h, 240 h + 1 s: reuse while valid, replacement after expiry, never an expired certificate) and all schedules of 2-3 concurrent first requests per host.",
+		LevelNote: "Trusted: crypto/x509 verification, the virtual clock wired into issuance (rule R5) and into the verifying client (tls.Config.Time).",
+		Technique: "bounded-exhaustive input enumeration through the real TLS path + explicit-state enumeration of issuance/expiry histories + preemption-bounded schedule enumeration of concurrent issuance",
+		DesignRef: "DESIGN.md section 4 C11",
+		Rule:        "all host x port pairs; all clock-advance histories up to depth 4; all schedules within K of concurrent issuance",
+		Assumptions: seqAssumptions,
+		Runs: func(tier string) []run {
+			k := 2
+			if tier == "thorough" {
+				k = 3
+			}
+			return []run{
+				{Pkg: "./proxy", Scenario: "proxy/connect-targets", Params: map[string]any{}},
+				{Pkg: "./proxy/certs", Scenario: "certs/histories", Params: map[string]any{"depth": 4}, Workers: 4},
+				{Pkg: "./proxy/certs", Scenario: "certs/sched", Params: map[string]any{}, K: k, E: 0, Horizon: 3000},
+			}
 		},
 	}
 }
